@@ -21,16 +21,26 @@ type genJob struct {
 func genRun(j genJob) *trace.Scenario {
 	m := machine.New(intROM, machine.Options{NoCPU: true})
 	kind := j.kind
-	if kind == "sq1" || kind == "sq2" {
+	// sq1x / sq2x: the channel is observed while the *other* square channel is triggered again and again;
+	// noisefresh: channel 4 started on a machine whose NR43 was never written (and without a power cycle, which writes it)
+	cross := 0
+	switch kind {
+	case "sq1x", "sq2x":
+		cross = 23 + j.a%41
+	}
+	if kind == "sq1" || kind == "sq2" || kind == "sq1x" || kind == "sq2x" {
 		kind = "sq"
+	}
+	if kind == "noisefresh" {
+		kind = "noise"
 	}
 	sc := &trace.Scenario{ID: j.id}
 	val := func() int {
 		g := m.A.VerifGen()
 		switch j.kind {
-		case "sq1":
+		case "sq1", "sq1x":
 			return int(g.Duty1)
-		case "sq2":
+		case "sq2", "sq2x":
 			return int(g.Duty2)
 		case "wave":
 			return int(g.WavePos)
@@ -38,8 +48,10 @@ func genRun(j genJob) *trace.Scenario {
 		return int(g.LFSR) & 0x7fff
 	}
 	perr := machine.Try(func() {
-		m.M.Write(0xff26, 0x00)
-		m.M.Write(0xff26, 0x80)
+		if j.kind != "noisefresh" {
+			m.M.Write(0xff26, 0x00)
+			m.M.Write(0xff26, 0x80)
+		}
 		// let the hardware run a little so that the trigger does not fall on a special phase only
 		for i := 0; i < 3+j.a%7; i++ {
 			m.Hardware()
@@ -49,12 +61,15 @@ func genRun(j genJob) *trace.Scenario {
 		env := uint8([]int{0xf0, 0x08, 0xf1, 0x0f, 0x10, 0xa3, 0x09, 0xf7}[(j.a+7*j.b+3*j.narrow)%8])
 		lvl := uint8([]int{0x20, 0x00, 0x40, 0x60}[j.a%4])
 		switch j.kind {
-		case "sq1":
+		case "noisefresh":
+			m.M.Write(0xff21, env)
+			m.M.Write(0xff23, 0x80)
+		case "sq1", "sq1x":
 			m.M.Write(0xff10, 0x00)
 			m.M.Write(0xff12, env)
 			m.M.Write(0xff13, uint8(j.a&0xff))
 			m.M.Write(0xff14, uint8(0x80|j.a>>8))
-		case "sq2":
+		case "sq2", "sq2x":
 			m.M.Write(0xff17, env)
 			m.M.Write(0xff18, uint8(j.a&0xff))
 			m.M.Write(0xff19, uint8(0x80|j.a>>8))
@@ -72,6 +87,18 @@ func genRun(j genJob) *trace.Scenario {
 		sc.Reset = []any{kind, j.a, j.b, j.narrow, v0, j.cycles, j.kind}
 		prev := v0
 		for c := 1; c <= j.cycles; c++ {
+			if cross > 0 && c%cross == 0 {
+				if j.kind == "sq1x" {
+					m.M.Write(0xff17, 0xf0)
+					m.M.Write(0xff18, uint8(c))
+					m.M.Write(0xff19, 0x80|uint8(c>>3)&7)
+				} else {
+					m.M.Write(0xff10, 0x00)
+					m.M.Write(0xff12, 0xf0)
+					m.M.Write(0xff13, uint8(c))
+					m.M.Write(0xff14, 0x80|uint8(c>>3)&7)
+				}
+			}
 			m.Hardware()
 			if v := val(); v != prev {
 				sc.Ev = append(sc.Ev, []any{c, v})
@@ -163,6 +190,21 @@ func genJobs(c *Ctx) []genJob {
 			jobs = append(jobs, genJob{id: fmt.Sprintf("gen-%s-%d", k, f), kind: k, a: f, cycles: cyc})
 		}
 	}
+	for i, f := range freqs {
+		if !c.Thorough() && i%3 != 0 {
+			continue
+		}
+		p := 2048 - f
+		cyc := 8 * p
+		if cyc < 400 {
+			cyc = 400
+		}
+		if cyc > 13000 {
+			cyc = 13000
+		}
+		jobs = append(jobs, genJob{id: fmt.Sprintf("gen-sq1x-%d", f), kind: "sq1x", a: f, cycles: cyc}, genJob{id: fmt.Sprintf("gen-sq2x-%d", f), kind: "sq2x", a: f, cycles: cyc})
+	}
+	jobs = append(jobs, genJob{id: "gen-noise-fresh", kind: "noisefresh", cycles: 400})
 	// noise: every NR43 value with s <= 13
 	for s := 0; s <= 13; s++ {
 		for r := 0; r < 8; r++ {
